@@ -65,7 +65,7 @@ def _replay_pose(data):
     tol = float(data.get("tol", 2e-2))
 
     def close(a, b):
-        return a.shape == b.shape and np.allclose(a, b, atol=tol * max(1.0, np.abs(a).max()))
+        return a.shape == b.shape and np.allclose(a, b, rtol=0, atol=tol * max(1.0, np.abs(a).max()))
     which = data.get("which", "promolecule")
     prop = data.get("with_property", None)
     if which == "promolecule":
@@ -146,6 +146,8 @@ def _replay_pose(data):
 
 
 REPLAY = {"pose": replay_pose}
+from . import c03 as _c03r   # noqa: E402
+REPLAY.update({"radius": _c03r.replay_radius})
 
 
 # ------------------------------------------------------------------------------------ run
@@ -160,7 +162,9 @@ def run(ctx):
     ctx.stub("sphere_promolecule_radii / sphere_stockholder_radii return an arbitrary radius per direction (contract: depends only on geometry relative to the origin; -1 iff no sign change); "
              "SHT.analysis, coefficient expansion and the invariants are opaque recorders (C07, C08); property functions record the points they are asked for")
     ctx.out_of_scope("the discretisation-error clause (a limit); float32 root accuracy; Brent iteration (only its call contract)")
-    ctx.parallel_sections([("descriptors", part_descriptors), ("molecule", part_molecule), ("crystal", part_crystal)])
+    from . import c03 as _c03
+    ctx.stub("the crystal entry points take their Hirshfeld environment from Crystal.molecule_environment(s): that it returns every atom within the radius is C03's lemma A, run here as a dependency section")
+    ctx.parallel_sections([("descriptors", part_descriptors), ("molecule", part_molecule), ("crystal", part_crystal)] + _c03.dependency_sections({"molecule_environment"}))
 
 
 def _shim_sd():
